@@ -358,7 +358,7 @@ pub fn check(tier: Tier, threads: usize) -> CheckOutcome {
                         found.entry(sig.clone()).or_insert(Violation {
                             signature: sig.clone(),
                             what: what.clone(),
-                            replay: json!({"engine": "c12", "stream": sq.iter().map(|e| alpha[*e].name()).collect::<Vec<_>>()}),
+                            replay: json!({"engine": "c12", "stream": sq.iter().map(|e| alpha[*e].name()).collect::<Vec<_>>(), "indices": sq}),
                         });
                     }
                 }
@@ -392,4 +392,21 @@ pub fn check(tier: Tier, threads: usize) -> CheckOutcome {
         wall_s: t0.elapsed().as_secs_f64(),
         machinery_error: mach,
     }
+}
+
+pub fn replay(v: &serde_json::Value) -> Result<Option<String>, String> {
+    let alpha = alphabet();
+    let sq: Vec<usize> = v["indices"].as_array().map(|a| a.iter().filter_map(|x| x.as_u64().map(|y| y as usize)).collect()).unwrap_or_default();
+    let mut out = None;
+    for bytewise in [false, true] {
+        let a = run_stream(&alpha, &sq, bytewise, None)?.viol;
+        let b = run_stream(&alpha, &sq, bytewise, None)?.viol;
+        if a != b {
+            return Err("two replays of the same stream differ".into());
+        }
+        if out.is_none() {
+            out = a.map(|(s, w)| format!("{}: {}", s, w));
+        }
+    }
+    Ok(out)
 }
